@@ -85,6 +85,9 @@ fn one(v: &Value) -> Value {
       // a decoder state (value_pos = 5k, data_pos, ...) is reached by a prefix; only the default-prefix form is replayed
       let k = v["current_value_pos"].as_u64().unwrap() / 5;
       let mut s = String::new();
+      for _ in 0..v["current_data_pos"].as_u64().unwrap_or(0).min(64) {
+        s.push('A');
+      }
       for _ in 0..k {
         s.push('g');
       }
